@@ -12,10 +12,10 @@ import (
 )
 
 type C09Case struct {
-	Recv  Node      `json:"recv"` // stack or cond description
-	Rich  bool      `json:"rich"` // install policies, aux, id, category, log levels, less func, mutex
-	Invalid bool    `json:"invalid,omitempty"` // the installed validity policy REJECTS the instance (read-only must hold all the same)
-	Calls []C17Call `json:"calls"`
+	Recv    Node      `json:"recv"`              // stack or cond description
+	Rich    bool      `json:"rich"`              // install policies, aux, id, category, log levels, less func, mutex
+	Invalid bool      `json:"invalid,omitempty"` // the installed validity policy REJECTS the instance (read-only must hold all the same)
+	Calls   []C17Call `json:"calls"`
 }
 
 // buildRich builds the receiver and decorates it with every kind of setting.
@@ -150,9 +150,9 @@ func runC09(c C09Case) (st Stats, err error) {
 		if !isCond {
 			rlen = origS.Len()
 		}
-		ctx := &synthCtx{Len: rlen, Variant: call.Variant}
+		ctx := &synthCtx{Len: rlen, Variant: call.Variant, ForceAny: call.Arg}
 		args, desc := synthArgs(m.Type, true, ctx)
-		targs, _ := synthArgs(m.Type, true, &synthCtx{Len: rlen, Variant: call.Variant})
+		targs, _ := synthArgs(m.Type, true, &synthCtx{Len: rlen, Variant: call.Variant, ForceAny: call.Arg})
 
 		// ---- measure on the writable twin whether this call is a real mutator
 		mutates := false
@@ -339,7 +339,7 @@ func runC09(c C09Case) (st Stats, err error) {
 	}
 	sig := c.Recv.Brief() + fmt.Sprint(c.Rich, c.Invalid)
 	for _, call := range c.Calls {
-		sig += fmt.Sprintf("|%s#%d", call.Method, call.Variant)
+		sig += fmt.Sprintf("|%s#%d%s", call.Method, call.Variant, call.Arg)
 	}
 	st.Sig = sig
 	if isCond {
@@ -371,16 +371,24 @@ func enumC09(tier Tier, yield func(C09Case)) {
 	if tier.Thorough {
 		variants = 40
 	}
-	for _, tpl := range c09Templates {
+	for ti, tpl := range c09Templates {
 		ms := stackMethods
 		if tpl.n.IsCond() {
 			ms = condMethods
 		}
 		for _, m := range ms {
 			for v := 0; v < variants; v++ {
-				yield(C09Case{Recv: tpl.n, Rich: tpl.rich, Calls: []C17Call{{m.Name, v}}})
+				yield(C09Case{Recv: tpl.n, Rich: tpl.rich, Calls: []C17Call{{Method: m.Name, Variant: v}}})
 				if v < 3 {
-					yield(C09Case{Recv: tpl.n, Rich: tpl.rich, Invalid: true, Calls: []C17Call{{m.Name, v + 3}}})
+					yield(C09Case{Recv: tpl.n, Rich: tpl.rich, Invalid: true, Calls: []C17Call{{Method: m.Name, Variant: v + 3}}})
+				}
+			}
+			if anyParamMethod(m) {
+				// every catalogue entry by name (thorough: all; quick: a deterministic third per template)
+				for i, a := range awkwardCatalogue {
+					if tier.Thorough || (i+ti)%3 == 0 {
+						yield(C09Case{Recv: tpl.n, Rich: tpl.rich, Calls: []C17Call{{Method: m.Name, Variant: 1 + i%2, Arg: a.Name}}})
+					}
 				}
 			}
 		}
@@ -389,7 +397,7 @@ func enumC09(tier Tier, yield func(C09Case)) {
 
 var c09RecvGen = TreeGen{MaxDepth: 2, MaxWidth: 4, Budget: 12, Kinds: stackKinds,
 	Leaf: func(t *rapid.T) Val { return genPrimVal(t, true, true) }, Conds: true, CondExprStack: true, NilLeaves: true, EmptyStacks: true,
-	Options: true, Caps: true, IndexOpts: true, MutexOpt: true, FIFOOpt: true, Ambient: true, WideRuns: true, NoNestAfter: true}
+	Options: true, Caps: true, IndexOpts: true, MutexOpt: true, FIFOOpt: true, ZooLeaves: true, Ambient: true, WideRuns: true, NoNestAfter: true}
 
 func genC09(t *rapid.T, tier Tier) C09Case {
 	c := C09Case{Rich: rapid.Bool().Draw(t, "rich"), Invalid: rapid.IntRange(0, 4).Draw(t, "invalid") == 0}
@@ -420,11 +428,11 @@ func init() {
 			"rapid: generated receivers (trees with options/capacity/FIFO/mutex, Conditions) x programs of 1..8 reflected calls with variants 0..600. Oracle: the full snapshot (public getters + VerifDump: option bits, symbol, encapsulation, closure identities, logger identity, log-level bits, aux identity and content, slots, recursively) " +
 			"is identical after every call on the read-only instance, except the flag for SetReadOnly/ReadOnly (set/clear/toggle semantics checked, state identical after restoring the flag), the error field for SetErr, the handle for Condition.Init (old instance untouched); Free must return an error and release nothing; after SetReadOnly(false) Push/Pop/SetParen/SetID work. " +
 			"non-trivial = the same call with the same arguments changes the snapshot of a writable twin built from the same description (measured); distinct = (receiver, call sequence)",
-		Gen:      genC09,
-		Run:      runC09,
-		Enum:     enumC09,
-		EnumNote: "all reflected Stack and Condition methods x 12/40 argument variants x 7 receiver templates",
-		Floors:   map[string]float64{"recv:Condition": 0.1, "flag-cleared-and-restored": 0.01, "recv-rejected-by-its-validity-policy": 0.1},
+		Gen:         genC09,
+		Run:         runC09,
+		Enum:        enumC09,
+		EnumNote:    "all reflected Stack and Condition methods x 12/40 argument variants x 7 receiver templates",
+		Floors:      map[string]float64{"recv:Condition": 0.1, "flag-cleared-and-restored": 0.01, "recv-rejected-by-its-validity-policy": 0.1},
 		Assumptions: []string{"closures installed on the receiver are pure recorders", "a panic of the writable twin is C08's business and is ignored here"},
 	})
 }
